@@ -215,6 +215,60 @@ theorem sample_guard (prior : Rat) (rs : List Rat) (g : Rat) (hg : 0 ≤ g) :
     simp only [Slot.sample]
     rw [if_neg (by push Not; exact ⟨h.1, fun hc => h.2 (hn0.mp hc)⟩)]
 
+
+/-! ### the rate is the prior plus half the squared deviations from the mean (Welford's update) -/
+
+theorem sum_sq_dev_expand (c : Rat) : ∀ vs : List Rat,
+    (vs.map (fun v => (v - c) * (v - c))).sum = (vs.map (fun v => v * v)).sum - 2 * c * vs.sum + (vs.length : Rat) * (c * c)
+  | [] => by simp
+  | v :: vs => by
+    simp only [List.map_cons, List.sum_cons, List.length_cons, sum_sq_dev_expand c vs]
+    push_cast; ring
+
+theorem sqDev_eq (rs : List Rat) (h : rs ≠ []) :
+    sqDev rs = (rs.map (fun v => v * v)).sum - rs.sum * rs.sum / (rs.length : Rat) := by
+  have hlen : (rs.length : Rat) ≠ 0 := by
+    have : 0 < rs.length := List.length_pos_of_ne_nil h
+    positivity
+  rw [sqDev, sum_sq_dev_expand, meanOf]
+  field_simp
+  ring
+
+/-- **Welford** — for EVERY reward history the rate is `10 + ½ Σ (rᵢ − mean)²`: the variance estimate
+    `v = β / (α + 1)` is the prior blended with the population variance of the rewards seen -/
+theorem slot_beta_welford (prior : Rat) (rs : List Rat) :
+    (Slot.run prior rs).beta = 10 + (if rs = [] then 0 else sqDev rs) / 2 := by
+  induction rs using List.reverseRecOn with
+  | nil => simp [Slot.run, Slot.init]
+  | append_singleton rs r ih =>
+    rw [Slot.run_snoc]
+    have hn := Slot.run_n prior rs
+    have hne : rs ++ [r] ≠ [] := by simp
+    rw [if_neg hne, sqDev_eq _ hne]
+    simp only [Slot.update, hn, ih]
+    by_cases hrs : rs = []
+    · subst hrs
+      simp
+    · rw [if_neg hrs, sqDev_eq _ hrs, Slot.run_mu_eq_mean prior rs hrs, meanOf]
+      have hlen : (rs.length : Rat) ≠ 0 := by
+        have : 0 < rs.length := List.length_pos_of_ne_nil hrs
+        positivity
+      have hlen1 : (rs.length : Rat) + 1 ≠ 0 := by positivity
+      simp only [List.map_append, List.sum_append, List.map_cons, List.map_nil, List.sum_cons, List.sum_nil, add_zero,
+        List.length_append, List.length_singleton]
+      push_cast
+      field_simp
+      ring
+
+theorem sqDev_nonneg (rs : List Rat) : 0 ≤ sqDev rs := by
+  unfold sqDev
+  generalize meanOf rs = c
+  induction rs with
+  | nil => simp
+  | cons v vs ih =>
+    simp only [List.map_cons, List.sum_cons]
+    nlinarith [mul_self_nonneg (v - c)]
+
 /-- non-vacuity: a concrete history (the rewards 1, 3, 5/2 after prior 0) -/
 example : (Slot.run 0 [1, 3, 5 / 2]).mu = 13 / 6 ∧ (Slot.run 0 [1, 3, 5 / 2]).beta = 133 / 12 := by
   constructor <;> (simp [Slot.run, Slot.update, Slot.init]; norm_num)
